@@ -6,6 +6,7 @@ require (
 	github.com/ARM-software/golang-utils/utils v0.0.0
 	github.com/OneOfOne/xxhash v1.2.8
 	github.com/spaolacci/murmur3 v1.1.0
+	github.com/spf13/afero v1.14.0
 	golang.org/x/crypto v0.37.0
 )
 
@@ -43,7 +44,6 @@ require (
 	github.com/shirou/gopsutil/v4 v4.25.3 // indirect
 	github.com/sirupsen/logrus v1.9.3 // indirect
 	github.com/sourcegraph/conc v0.3.0 // indirect
-	github.com/spf13/afero v1.14.0 // indirect
 	github.com/spf13/cast v1.7.1 // indirect
 	github.com/spf13/pflag v1.0.6 // indirect
 	github.com/spf13/viper v1.20.1 // indirect
